@@ -3,6 +3,13 @@ obligation recording and discharge with the path's incremental z3 solver."""
 import time
 import z3
 
+# a query that makes the solver's memory grow without bound (seen on one seeded change: 15 GB and rising) is answered
+# 'unknown' at this size instead of exhausting the machine; ordinary queries stay far below it
+try:
+    z3.set_param('memory_max_size', 8000)
+except Exception:      # noqa
+    pass
+
 from .sym import V, Unsupported, fresh_name, NONE
 from .types import TRef, TPkt, TOpt, TList, TSet, TDict, TInt
 
